@@ -105,6 +105,17 @@ template <typename CharT, typename SizeT>
     return 0;
 }
 
+template <typename CharT, typename SizeT>
+[[nodiscard]] constexpr auto memcmp(CharT const* lhs, CharT const* rhs, SizeT count) -> int
+{
+    for (; count != 0; --count, ++lhs, ++rhs) {
+        if (*lhs != *rhs) {
+            return cstr_compare_char(*lhs, *rhs);
+        }
+    }
+    return 0;
+}
+
 template <typename CharT>
 [[nodiscard]] constexpr auto strchr(CharT* str, int ch) -> CharT*
 {
